@@ -33,10 +33,14 @@ pub static ARENA: LazyLock<RwLock<arena::Arena>> = LazyLock::new(|| RwLock::new(
 // ---------------------------------------------------------------------------
 // C13: the deadline on the step clock.  ticks <= COST_K * (n + m) + COST_C
 // Derivation in DESIGN.md section C13.
+//
+// K is four times the largest cost per byte the unchanged code reaches on the
+// adversarial families (10.1 with SSE2/AVX2; 49 without SIMD, where each call
+// of the portable prefilter may walk over up to 254 occurrences of the rare
+// byte before it can report a candidate, see inputs.rs "portable prefilter
+// worst case"), so that a change of the constant factor alone is not reported.
 pub const COST_K: u64 = 40;
-/// without SSE2 the portable prefilter is used, whose per-call cost is
-/// proportional to the pair offset (<= 254): a much larger constant
-pub const COST_K_NOSIMD: u64 = 56;
+pub const COST_K_NOSIMD: u64 = 200;
 pub const COST_C: u64 = 20_000;
 
 pub fn cost_k() -> u64 {
@@ -98,6 +102,7 @@ impl CostStats {
         if o.samples == 0 {
             return;
         }
+
         if self.samples == 0 || o.max_excess > self.max_excess {
             self.max_excess = o.max_excess;
         }
@@ -292,6 +297,8 @@ fn host_avx2() -> bool {
 
 static COST_MAX_LOG2: AtomicUsize = AtomicUsize::new(16);
 static LONG_HISTORY_LOG2: AtomicUsize = AtomicUsize::new(0);
+/// `--no-huge`: the multi-GiB episode of a run is generated as an ordinary one
+static NO_HUGE: std::sync::atomic::AtomicBool = std::sync::atomic::AtomicBool::new(false);
 /// `--also-model`: disagreement of a one-shot result with the naive model
 /// counts as a violation of the running profile too (used by the driver's
 /// isolation oracle for C15: a call must return what it returns in isolation)
@@ -314,6 +321,7 @@ pub fn target() -> gen::Target {
             scale_small: true,
             cost_max_log2: 10,
             long_history_log2: 0,
+            huge: false,
         };
     }
     gen::Target {
@@ -323,6 +331,7 @@ pub fn target() -> gen::Target {
         scale_small: miri,
         cost_max_log2: if miri { 11 } else { COST_MAX_LOG2.load(Ordering::Relaxed) as u32 },
         long_history_log2: if miri { 0 } else { LONG_HISTORY_LOG2.load(Ordering::Relaxed) as u32 },
+        huge: !miri && !NO_HUGE.load(Ordering::Relaxed),
     }
 }
 
@@ -470,6 +479,7 @@ pub fn execute(
             Place::Left => st.place_left += 1,
             Place::Right => st.place_right += 1,
             Place::Mid(_) => st.place_mid += 1,
+            Place::Over(_) => st.place_over += 1,
         }
     }
     let ch = w.choices.into_inner().unwrap();
@@ -525,6 +535,21 @@ pub fn run_family(fam: &Family, stats: &mut Stats) -> FamilyOutcome {
             violations.push((vi, v.clone()));
         }
     }
+    // The poison differential (C05) concludes "bytes outside the haystack
+    // were read" from a difference between variants. That inference needs a
+    // library whose answers are a function of the call: if the very same
+    // variant, run again with the same decisions, answers differently, the
+    // difference comes from state the library carried over (C15/C16 matters),
+    // not from an over-read.
+    let mut diff_kind = fam.diff_kind;
+    if diff_kind == VKind::Trap && outs.iter().skip(1).any(|o| o.log_hash != outs[0].log_hash) {
+        PROG_VARIANT.store(0, Ordering::Relaxed);
+        let mut scratch = Stats::default();
+        let again = execute(&ep, &fam.variants[0], Some(outs[0].choices.clone()), &mut scratch, None);
+        if again.log_hash != outs[0].log_hash {
+            diff_kind = VKind::History;
+        }
+    }
     // differential oracle across variants
     for vi in 1..outs.len() {
         if outs[vi].log_hash != outs[0].log_hash {
@@ -550,7 +575,7 @@ pub fn run_family(fam: &Family, stats: &mut Stats) -> FamilyOutcome {
                         );
                         violations.push((
                             vi,
-                            Violation { kind: fam.diff_kind, thread: t, op: i, what: what.clone() },
+                            Violation { kind: diff_kind, thread: t, op: i, what: what.clone() },
                         ));
                         break 'find;
                     }
@@ -631,10 +656,13 @@ pub fn op_name(op: &Op) -> &'static str {
         Op::Cmp { .. } => "Cmp",
         Op::PairNew { .. } => "PairNew",
         Op::PairIdx { .. } => "PairIdx",
+        Op::HugeCount { .. } => "HugeCount",
+        Op::HugeFindIter { .. } => "HugeFindIter",
         Op::ByteAll { .. } => "ByteAll",
         Op::PackedAll { .. } => "PackedAll",
         Op::Lockstep { .. } => "Lockstep",
         Op::Cost { .. } => "Cost",
+        Op::Refill { .. } => "Refill",
     }
 }
 
@@ -722,9 +750,9 @@ fn cmd_run(args: &[String]) -> i32 {
     };
     let start = std::time::Instant::now();
     let mut rep = RunReport { prop: prop.to_string(), seed, from, to, ..Default::default() };
-    let mut sigs: std::collections::HashSet<u64> = std::collections::HashSet::new();
-    let mut nontrivial_sigs: std::collections::HashSet<u64> = std::collections::HashSet::new();
-    let mut traces: std::collections::HashSet<u64> = std::collections::HashSet::new();
+    let mut sigs: std::collections::BTreeSet<u64> = std::collections::BTreeSet::new();
+    let mut nontrivial_sigs: std::collections::BTreeSet<u64> = std::collections::BTreeSet::new();
+    let mut traces: std::collections::BTreeSet<u64> = std::collections::BTreeSet::new();
     let mut code = 0;
     for index in from..to {
         let mut fam = gen::generate(profile, seed, index, tgt);
@@ -755,7 +783,11 @@ fn cmd_run(args: &[String]) -> i32 {
                 libc::pwrite(fd, b.as_ptr() as *const libc::c_void, 8, 0);
             }
         }
-        let t_gen = start.elapsed().as_secs_f64();
+        // not under the interpreter: reading the host clock costs a number of
+        // interpreted steps that depends on the time read (a borrow in the
+        // subtraction), and the interpreter's seeded scheduler draws once per
+        // step: the same interpreter seed would give another schedule
+        let t_gen = if cfg!(miri) { 0.0 } else { start.elapsed().as_secs_f64() };
         let fo = run_family(&fam, &mut rep.stats);
         if std::env::var_os("MEMSIM_TIMING").is_some() {
             eprintln!(
@@ -964,6 +996,7 @@ fn cmd_info() -> i32 {
             "big_endian": cfg!(target_endian = "big"),
             "cost_k": COST_K,
             "cost_c": COST_C,
+            "cost_k_nosimd": COST_K_NOSIMD,
         })
     );
     0
@@ -974,6 +1007,9 @@ fn main() {
     if args.is_empty() {
         eprintln!("usage: memsim run|replay|minimise|gen|info ...");
         std::process::exit(2);
+    }
+    if args.iter().any(|a| a == "--no-huge") {
+        NO_HUGE.store(true, Ordering::Relaxed);
     }
     if let Some(v) = arg(&args, "--long-history") {
         LONG_HISTORY_LOG2.store(v.parse().expect("--long-history"), Ordering::Relaxed);
